@@ -86,7 +86,7 @@ func main() {
 }
 
 func mustObserve() []string {
-	out := []string{"runs_compared_with_unmonitored_run(full_outcome)", "runs_compared_with_unmonitored_run(completion_only)", "events_handled_between_consecutive_requests", "requests_answered_under_a_user_pause"}
+	out := []string{"runs_compared_with_unmonitored_run(full_outcome)", "runs_compared_with_unmonitored_run(completion_only)", "events_handled_between_consecutive_requests", "requests_answered_under_a_user_pause", "user_pause_hold_probes_with_run_active"}
 	for _, k := range []string{"pause", "continue", "state", "tick", "component", "field", "buffers", "progress"} {
 		out = append(out, "requests_while_run_active_"+k)
 	}
@@ -374,6 +374,41 @@ func run(b kit.Batch, r *kit.R) {
 		var lastEvents atomic.Int64
 		var httpErr atomic.Value
 		var serializerAborts atomic.Int64
+		// Single-client probe before the concurrent clients start: a user pause must hold across inspection
+		// requests (C05/C40: once pause is acknowledged no handler starts until continue is requested).
+		if inProfile(kinds, "pause") || len(kinds) > 0 {
+			for spin := 0; spin < 200000 && a.events.Load() < 50 && !runEnded.Load(); spin++ {
+				runtime.Gosched()
+			}
+			get := func(path string) bool {
+				rsp, err := client.Get(base + path)
+				if err != nil {
+					return false
+				}
+				io.Copy(io.Discard, rsp.Body)
+				rsp.Body.Close()
+				return true
+			}
+			if !runEnded.Load() && get("/api/pause") {
+				e1 := a.events.Load()
+				active := !runEnded.Load()
+				probes := []string{"/api/engine/state", "/api/now", "/api/hangdetector/buffers?sort=level&limit=5", "/api/progress", "/api/list_components"}
+				for _, pth := range probes {
+					get(pth)
+					for y := 0; y < 200; y++ {
+						runtime.Gosched()
+					}
+					if e2 := a.events.Load(); e2 != e1 {
+						c.Fail("c40/user-pause-not-held-across-inspection", map[string]any{"after_request": pth, "events_before": e1, "events_after": e2, "cfg": cfg})
+						break
+					}
+				}
+				if active && !runEnded.Load() {
+					r.Count("user_pause_hold_probes_with_run_active", 1)
+				}
+				get("/api/continue")
+			}
+		}
 		var wg sync.WaitGroup
 		for ci := 0; ci < nClients; ci++ {
 			crng := rand.New(rand.NewSource(rng.Int63()))
